@@ -247,7 +247,7 @@ func c14Class(net *c14Net, sg *c14Sig, v *c14Vec, l c14List, mi int) string {
 }
 
 // one signature against every (vector variant, signer list, message) target
-func (r *c14Run) matrix(sg *c14Sig, vecs []*c14Vec, sorted, malformed []c14List) {
+func (r *c14Run) matrix(sg *c14Sig, vecs []*c14Vec, sorted, malformed []c14List, sameSizeOnly bool) {
 	c := r.c
 	net := sg.net
 	tag := fmt.Sprintf("%d|%v|%d|", net.n, sg.s, sg.mi)
@@ -292,6 +292,9 @@ func (r *c14Run) matrix(sg *c14Sig, vecs []*c14Vec, sorted, malformed []c14List)
 	}
 	for _, v := range vecs {
 		for _, l := range sorted {
+			if sameSizeOnly && v != net.base && len(l.l) != len(sg.s) {
+				continue
+			}
 			for mi := range r.msgs {
 				check(v, l, mi)
 			}
@@ -439,7 +442,7 @@ func (r *c14Run) rogue(net *c14Net, S []int, rpos int, mi int) {
 func TestMC_C14(t *testing.T) {
 	c := verifmc.Start(t, "C14", "exploration")
 	defer c.Finish()
-	c.SetRule("key vectors n in {1,2,3,4,6,300}. n<=6: one signature per (non-empty sorted subset S, message of 2); each verified against every (vector variant in {base, every swap of two keys, every single key replaced} x every sorted subset x 2 messages) and every malformed list (all unsorted permutations of subsets of size 2..3, every single duplicate, index n / n+7 / -1 added) x 2 messages [quick: for n=6 the vector variants are restricted to base, swaps and replacements touching S]; every malformed list is also signed with; every S proper subset of T forged with partial keys; rogue key (with and without small-order component) at first and last position of every S with |S|>=2. n=300: signatures for {0},{299},{0,299},{127,128},{255,256}, each verified against 15 sorted and 12 malformed lists x 9 swapped / 5 replaced vectors (including index pairs that differ by 256) x 2 messages. A case is distinct by (n, signed set, signed message, target vector, target list, target message) or by the forgery parameters")
+	c.SetRule("key vectors n in {1,2,3,4,6,300}. n<=6: one signature per (non-empty sorted subset S, message of 2); each verified against every (vector variant in {base, every swap of two keys, every single key replaced} x every sorted subset x 2 messages) and every malformed list (all unsorted permutations of subsets of size 2..3, every single duplicate, index n / n+7 / -1 added) x 2 messages [quick tier, n=6 only: the non-base vector variants are restricted to swaps and replacements that touch S, combined with the sorted subsets of the same size as S; the base vector still meets every list]; every malformed list is also signed with; every S proper subset of T forged with partial keys; rogue key (with and without small-order component) at first and last position of every S with |S|>=2. n=300: signatures for {0},{299},{0,299},{127,128},{255,256}, each verified against 15 sorted and 12 malformed lists x 9 swapped / 5 replaced vectors (including index pairs that differ by 256) x 2 messages. A case is distinct by (n, signed set, signed message, target vector, target list, target message) or by the forgery parameters")
 	c.Assume("reference verifier: plain Schnorr on filippo.io/edwards25519 with challenge SHA-512(R||A||m) (crypto/signature.go); used to validate the attacker's own signature in the rogue-key scenario and the accepted honest signatures against the weighted key computed by the repository",
 		"equality of triples is taken on the selected keys (DESIGN.md): a target that differs only in an unselected key is expected to verify; a refusal there is recorded as stricter-than-statement, not as a violation",
 		"the partial-key forgery uses the repository's aggregateWeightedPublicKey for the coefficients and the aggregate key (the forger follows the public algorithm)")
@@ -512,7 +515,7 @@ func TestMC_C14(t *testing.T) {
 							}
 						}
 					}
-					r.matrix(&c14Sig{net: net, s: S, mi: mi, sig: sig}, vecs, sorted, malformed)
+					r.matrix(&c14Sig{net: net, s: S, mi: mi, sig: sig}, vecs, sorted, malformed, !allPairs)
 				})
 			}
 		}
@@ -576,7 +579,7 @@ func TestMC_C14(t *testing.T) {
 						return
 					}
 					nSigs.Add(1)
-					r.matrix(&c14Sig{net: net, s: S, mi: mi, sig: sig}, net.vecs, sorted, malformed)
+					r.matrix(&c14Sig{net: net, s: S, mi: mi, sig: sig}, net.vecs, sorted, malformed, false)
 				})
 			}
 		}
